@@ -64,6 +64,9 @@ func pathTag(a *AdmitCase, g AdmitOut) string {
 // admitSweep: n generated cases through the real Admission.Validate and through the model; `full` is the projection
 // compared for correspondence, `decisive` the observables the property determines uniquely (a difference there is a
 // violation with the case as its replay).
+// histGroup: how many consecutive generated requests share one configuration (and, in the history pass, one controller)
+const histGroup = 16
+
 func admitSweep(c *Ctx, n int, k AdmitKnobs, full, decisive string, extra func(a *AdmitCase, g AdmitOut), mutate func(r *Rng, a *AdmitCase)) {
 	r := NewRng(c.Seed)
 	const chunk = 400
@@ -72,9 +75,16 @@ func admitSweep(c *Ctx, n int, k AdmitKnobs, full, decisive string, extra func(a
 		var gos []AdmitOut
 		var ops []J
 		for i := base; i < base+chunk && i < n; i++ {
-			a := genAdmitCase(r.Fork(), i, k)
+			kk := k
+			if i%histGroup != 0 && len(cases) > 0 {
+				kk.Shared = cases[len(cases)-(i%histGroup)]
+			}
+			a := genAdmitCase(r.Fork(), i, kk)
 			if mutate != nil {
 				mutate(r, a)
+				if kk.Shared != nil { // the mutation may not change what the group shares
+					a.ExNS, a.ExUsers, a.ExRC = kk.Shared.ExNS, kk.Shared.ExUsers, kk.Shared.ExRC
+				}
 			}
 			g := a.runGo()
 			c.Eval(1)
@@ -96,6 +106,38 @@ func admitSweep(c *Ctx, n int, k AdmitKnobs, full, decisive string, extra func(a
 			ops = append(ops, a.opJSON())
 			if i < 2 {
 				c.Sample(J{"request": a.opJSON()["req"], "cfg": a.opJSON()["cfg"], "goResponse": g})
+			}
+		}
+		// history: every group of requests again through ONE long-lived controller (in order, then in reverse order); a response
+		// may depend on the request, the configuration and what the request's own dependencies return — not on earlier requests
+		for g0 := 0; g0+1 < len(cases); g0 += histGroup {
+			g1 := g0 + histGroup
+			if g1 > len(cases) {
+				g1 = len(cases)
+			}
+			group := cases[g0:g1]
+			fwd := make([]int, len(group))
+			for j := range fwd {
+				fwd[j] = j
+			}
+			rev := make([]int, len(group))
+			for j := range rev {
+				rev[j] = len(group) - 1 - j
+			}
+			for pass, order := range [][]int{fwd, append(append([]int{}, fwd...), rev...)} {
+				hist := runHistory(group, order)
+				for j := range group {
+					c.Eval(1)
+					fresh := gos[g0+j]
+					if fresh.Panic != "" || hist[j].Panic != "" {
+						continue
+					}
+					if d := diffAdmit(fresh, hist[j], "allowed code causes message warnings ann audit evalCalls listCalls metrics"); len(d) > 0 {
+						c.Violate(Finding{Desc: fmt.Sprintf("the response depends on earlier requests to the same controller (request %d of a group of %d, pass %d): %s", j+1, len(group), pass+1, strings.Join(d, "; ")),
+							Key: "history:" + strings.SplitN(d[0], ":", 2)[0], Input: ops[g0+j], Go: J{"afterEarlierRequests": hist[j], "alone": fresh}})
+						break
+					}
+				}
 			}
 		}
 		outs := c.Lean(ops)
